@@ -210,14 +210,18 @@ Section Framing.
   Definition rdf_rest (recs : list (str * list str)) : list str :=
     match recs with [] => [] | fb :: r => snd fb ++ rdf_tail r end.
 
-  Lemma is_fmt_not_dtype l : is_fmt l = true -> is_dtype l = false.
+  Lemma startswith_true p : forall l, startswith p l = true -> exists r, l = p ++ r.
   Proof.
-    unfold is_fmt, is_dtype. destruct l as [|a [|b l]]; cbn; try (intros; discriminate).
-    - rewrite !andb_false_r. discriminate.
-    - destruct (Ascii.eqb "$" a); cbn; [|discriminate].
-      destruct (Ascii.eqb "D" b) eqn:E; [|reflexivity]. apply Ascii.eqb_eq in E. subst b. cbn. discriminate.
+    induction p as [|a p IH]; intros l H; [exists l; reflexivity|].
+    destruct l as [|b l]; [discriminate|]. cbn [startswith] in H. apply andb_prop in H. destruct H as [H1 H2].
+    apply Ascii.eqb_eq in H1. subst b. destruct (IH l H2) as [r ->]. exists r. reflexivity.
   Qed.
-
+  Lemma is_fmt_cases l : is_fmt l = true -> exists r, l = L "$RFMT" ++ r \/ l = L "$MFMT" ++ r.
+  Proof.
+    unfold is_fmt. intros H. apply orb_prop in H. destruct H as [H|H]; apply startswith_true in H; destruct H as [r ->]; exists r; [left|right]; reflexivity.
+  Qed.
+  Lemma is_fmt_not_dtype l : is_fmt l = true -> is_dtype l = false.
+  Proof. intros H. destruct (is_fmt_cases l H) as [r [-> | ->]]; reflexivity. Qed.
   Lemma rdf_block_body body : forall n buf m recs,
     Forall (fun l => is_fmt l = false) body -> Forall (fun fb => is_fmt (fst fb) = true) recs ->
     (n + length body < buffer_size)%nat ->
@@ -248,15 +252,7 @@ Section Framing.
       cbn [length]. f_equal. lia.
   Qed.
   Lemma is_fmt_not_rxn f : is_fmt f = true -> startswith (L "$RXN") f = false.
-  Proof.
-    unfold is_fmt. destruct f as [|a [|b l]]; cbn; try (intros; discriminate).
-    - rewrite !andb_false_r. discriminate.
-    - destruct (Ascii.eqb "$" a); cbn; [|discriminate].
-      destruct (Ascii.eqb "R" b) eqn:E.
-      + apply Ascii.eqb_eq in E. subst b. cbn. destruct l as [|c l]; cbn; [discriminate|].
-        destruct (Ascii.eqb "F" c) eqn:E2; [apply Ascii.eqb_eq in E2; subst c; reflexivity|]. cbn. discriminate.
-      + reflexivity.
-  Qed.
+  Proof. intros H. destruct (is_fmt_cases f H) as [r [-> | ->]]; reflexivity. Qed.
 
   Definition rdf_body_ok (extra : nat) (body : list str) : Prop :=
     Forall (fun l => is_fmt l = false) body /\ (extra + length body < buffer_size)%nat.
@@ -330,17 +326,17 @@ Section Framing.
       { clear - Hh. induction Hh as [|l header [H1 H2] _ IH]; intros n; [reflexivity|]. cbn [rdf_block]. rewrite H2, H1. apply IH. }
       rewrite E. reflexivity.
     - inversion Hr as [|? ? [H1 [H2 H3]] Hr']; subst. cbn [fst snd] in *.
-      unfold rdf_tail. cbn [map concat fst snd]. fold (rdf_tail recs). cbn [rdf_iter].
-      change (header ++ (f :: body ++ rdf_tail recs)) with (header ++ f :: body ++ rdf_tail recs).
+      unfold rdf_tail. cbn [map concat fst snd]. fold (rdf_tail recs). cbn [app].
+      remember (length (header ++ f :: body ++ rdf_tail recs)) as fuel eqn:Efuel. cbn [rdf_iter].
       assert (Hr'' : Forall (fun fb : str * list str => is_fmt (fst fb) = true /\ rdf_body_ok 0 (snd fb) /\ snd fb <> []) recs).
       { eapply Forall_impl; [|exact Hr']. intros fb [Ha [[Hb Hc] Hd]]. repeat split; try assumption. lia. }
       rewrite rdf_structure_first; try assumption.
       2:{ eapply Forall_impl; [|exact Hr']. intros fb [H _]. exact H. }
-      assert (IH : rdf_iter A build_mol build_rxn buffer_size (length (header ++ f :: body ++ rdf_tail recs)) 1 (rdf_rest recs) =
+      assert (IH : rdf_iter A build_mol build_rxn buffer_size fuel 1 (rdf_rest recs) =
                    collect (map rdf_one (map snd recs))).
-      { apply rdf_iter_rest; [lia | exact Hr'' |]. rewrite !app_length. cbn [length]. rewrite app_length.
+      { apply rdf_iter_rest; [lia | exact Hr'' |]. subst fuel. rewrite app_length. cbn [length]. rewrite app_length.
         assert (length recs <= length (rdf_tail recs))%nat.
-        { clear. unfold rdf_tail. induction recs as [|[a b] recs IH]; cbn [map concat length fst snd]; [lia|]. rewrite app_length. lia. }
+        { clear. unfold rdf_tail. induction recs as [|[a b] recs IH]; cbn [map concat length fst snd]; [lia|]. rewrite app_length. cbn [length]. lia. }
         lia. }
       cbn [map snd]. pose proof (rdf_one_not_eof body H3) as Hne.
       destruct (rdf_one body) as [x|[e| |]]; cbn [collect].
@@ -350,3 +346,45 @@ Section Framing.
       + reflexivity.
   Qed.
 End Framing.
+
+(* ------------------------------------------------------------------------------------------------ *)
+(** * non-vacuity: a three-record SDF file whose middle record is damaged (its counts line is garbage); the builder
+      returns the title of the parsed molecule *)
+Definition ex_rec (title : string) (counts : string) : list str :=
+  map add_nl [L title; []; []; L counts; L "    0.0000    0.0000    0.0000 C   0  0  0  0  0  0  0  0  0  0  0  0"; L "M  END"; L ">  <k>"; L "v"; []].
+Definition ex_good := "  1  0  0  0  0  0            999 V2000"%string.
+Definition ex_recs : list (list str * str) :=
+  [(ex_rec "a" ex_good, add_nl (L "$$$$")); (ex_rec "b" "  x  0  0  0  0  0            999 V2000", add_nl (L "$$$$")); (ex_rec "c" ex_good, add_nl (L "$$$$"))].
+Definition ex_build (p : parsed3) : pyres (option str) := Ok (p_title (p3 p)).
+Definition ex_build_rxn (r : rparsed) : pyres (option str) := Ok (r_title r).
+
+Example sdf_framing_example :
+  Forall (fun rd => sdf_record_ok 100 (fst rd) /\ fst rd <> [] /\ is_delim (snd rd) = true) ex_recs /\
+  sdf_record_ok 100 [] /\
+  map (sdf_one (option str) ex_build) (map fst ex_recs) =
+    [inl (Some (L "a"), [(L "k", L "v")]); inr (Py ValueError); inl (Some (L "c"), [(L "k", L "v")])] /\
+  sdf_read (option str) ex_build 100 (sdf_file ex_recs []) = ([(Some (L "a"), [(L "k", L "v")]); (Some (L "c"), [(L "k", L "v")])], Exhausted).
+Proof.
+  split; [|split; [|split]].
+  - repeat constructor; try discriminate; cbn; lia.
+  - split; [constructor | cbn; lia].
+  - vm_compute. reflexivity.
+  - vm_compute. reflexivity.
+Qed.
+
+Definition ex_rdf_recs : list (str * list str) :=
+  [(add_nl (L "$MFMT"), firstn 6 (ex_rec "a" ex_good) ++ map add_nl [L "$DTYPE k"; L "$DATUM v"]);
+   (add_nl (L "$MFMT"), firstn 6 (ex_rec "b" "  x  0  0  0  0  0            999 V2000"));
+   (add_nl (L "$MFMT"), firstn 6 (ex_rec "c" ex_good) ++ map add_nl [L "$DTYPE k"; L "$DATUM w"; L "MAD value"])].
+Definition ex_rdf_header : list str := map add_nl [L "$RDFILE 1"; L "$DATM    01/01/01 00:00"].
+Example rdf_framing_example :
+  Forall (fun l => is_fmt l = false /\ startswith (L "$RXN") l = false) ex_rdf_header /\
+  Forall (fun fb => is_fmt (fst fb) = true /\ rdf_body_ok 100 (S (length ex_rdf_header)) (snd fb) /\ snd fb <> []) ex_rdf_recs /\
+  rdf_read (option str) ex_build ex_build_rxn 100 (rdf_file ex_rdf_header ex_rdf_recs) =
+    ([(Some (L "a"), [(L "k", L "v")]); (Some (L "c"), [(L "k", L "w" ++ [nl] ++ L "MAD value")])], Exhausted).
+Proof.
+  split; [|split].
+  - repeat constructor.
+  - repeat constructor; try discriminate; cbn; lia.
+  - vm_compute. reflexivity.
+Qed.
